@@ -43,12 +43,19 @@ func c16FileImports(decls []string, both bool) string {
 	if both || strings.Contains(body, "strings.") {
 		imps = append(imps, "\t\"strings\"\n")
 	}
+	if strings.Contains(body, "c16sub.") {
+		imps = append(imps, "\t\""+c16SubPath+"\"\n") // a script package: whichever file uses it imports it
+	}
 	h := "package main\n\n"
 	if len(imps) > 0 {
 		h += "import (\n" + strings.Join(imps, "") + ")\n\n"
 	}
 	return h + body
 }
+
+// c16SubPath / c16SubSrc: a small script package that one hoistable function uses.
+const c16SubPath = "ref/c16sub"
+const c16SubSrc = "package c16sub\n\nvar Calls int\n\nfunc Double(n int) int {\n\tCalls++\n\treturn n * 2\n}\n"
 
 // c16LitA / c16LitB have the same shape, so that their literals sit at the same line and column when each is the
 // first declaration of its file; both literals declare a local type named rec.
@@ -120,6 +127,12 @@ func c16Gen(seed int64, idx int) c16Pkg {
 		"func (c *Cow) Sound() string {\n\treturn \"moo\"\n}\n",
 		"func (c *Cat) Legs() int {\n\treturn 4\n}\n",
 		"func sounds() string {\n\td := &Dog{}\n\tc := &Cat{}\n\tw := &Cow{}\n\treturn d.Sound() + c.Sound() + w.Sound() + fmt.Sprint(c.Legs())\n}\n",
+		"func dbl(n int) int {\n\treturn c16sub.Double(n) + 1\n}\n",
+		// a local constant named like a package-level one, in a function and in a method
+		"func fine(n int) int {\n\tconst step = 3\n\treturn n + step\n}\n",
+		"func coarse(n int) int {\n\treturn n*step + step\n}\n",
+		"func (a *A) Fine() int {\n\tconst step = 4\n\tconst unit = \"u\"\n\treturn a.N + step + len(unit)\n}\n",
+		"func (b *B) Coarse() int {\n\treturn len(b.S) + step + len(unit)\n}\n",
 		"func even(n int) bool {\n\tif n == 0 {\n\t\treturn true\n\t}\n\treturn odd(n - 1)\n}\n",
 		"func odd(n int) bool {\n\tif n == 0 {\n\t\treturn false\n\t}\n\treturn even(n - 1)\n}\n",
 	)
@@ -143,10 +156,12 @@ func c16Gen(seed int64, idx int) c16Pkg {
 		body.WriteString("\treturn x\n}\n")
 		p.Hoist = append(p.Hoist, body.String())
 	}
-	p.Hoist = append(p.Hoist, fmt.Sprintf("func main() {\n\tfmt.Println(\"main\", g0, g1, g2, g3, f%d(g1), mk(k2).B.Name())\n\tfmt.Println(odd(k2), even(k1), gs, Tag(mk(k1)), Name(mk(k2).B), S)\n\tsz := &Size{W: k1, H: 2}\n\tbx := &Box{Tag: \"b\"}\n\tp := pair(k2)\n\tw := wide(k1)\n\tfmt.Println(area(sz, bx), sz.W, sz.H, bx.H, bx.W, p.F00, p.F16, p.F08, w.F00, w.F03, w.F16, w.F19)\n\tfmt.Println(\"S: \", sz, bx, p, litA(), litB(), localT(4), bl)\n\tfmt.Println(usesBuiltinNames(k1), usesBuiltinNames(k2))\n\tfmt.Println(\"S: \", showdm())\n\tfmt.Println(sounds(), len(doc), doc[:5])\n\tif note == nil && pick == nil {\n\t\tpick = max\n\t\tfmt.Println(\"pick\", pick(1, 2))\n\t}\n}\n", nf-1))
+	p.Hoist = append(p.Hoist, fmt.Sprintf("func main() {\n\tfmt.Println(\"main\", g0, g1, g2, g3, f%d(g1), mk(k2).B.Name())\n\tfmt.Println(odd(k2), even(k1), gs, Tag(mk(k1)), Name(mk(k2).B), S)\n\tsz := &Size{W: k1, H: 2}\n\tbx := &Box{Tag: \"b\"}\n\tp := pair(k2)\n\tw := wide(k1)\n\tfmt.Println(area(sz, bx), sz.W, sz.H, bx.H, bx.W, p.F00, p.F16, p.F08, w.F00, w.F03, w.F16, w.F19)\n\tfmt.Println(\"S: \", sz, bx, p, litA(), litB(), localT(4), bl)\n\tfmt.Println(usesBuiltinNames(k1), usesBuiltinNames(k2))\n\tfmt.Println(\"S: \", showdm())\n\tfmt.Println(sounds(), len(doc), doc[:5], dbl(k1))\n\tfmt.Println(fine(1), coarse(1), mk(2).Fine(), mk(2).B.Coarse())\n\tif note == nil && pick == nil {\n\t\tpick = max\n\t\tfmt.Println(\"pick\", pick(1, 2))\n\t}\n}\n", nf-1))
 	// the spine keeps its order: later initialisers depend on earlier ones
 	p.Spine = []string{
 		fmt.Sprintf("const k1 = %d\n", rng.Range(1, 9)),
+		"const step = 10\n",
+		"const unit = \"unit\"\n",
 		fmt.Sprintf("var g0 = %d\n", rng.Range(1, 5)),
 		fmt.Sprintf("var g1 = f%d(k1) + g0\n", rng.Intn(nf)),
 		"const k2 = k1*2 + 1\n",
@@ -181,7 +196,7 @@ func c16Canonical(p c16Pkg, dir string, forGo bool) map[string]string {
 			}
 		}
 	}
-	return map[string]string{dir + "/main.go": c16File(append(append([]string{}, p.Hoist...), spine...))}
+	return map[string]string{dir + "/main.go": c16File(append(append([]string{}, p.Hoist...), spine...)), c16SubPath + "/c16sub.go": c16SubSrc}
 }
 
 // c16Layout builds one variant: hoistables permuted, merged with the spine
@@ -235,6 +250,7 @@ func c16Layout(p c16Pkg, rng *core.Rng, dir string) c16Variant {
 		for _, o := range append(append([]string{}, fa...), fb...) {
 			v.Order = append(v.Order, firstLine(o))
 		}
+		v.Files[c16SubPath+"/c16sub.go"] = c16SubSrc
 		return v
 	}
 	names := []string{"a.go", "b.go", "c.go", "m.go", "z.go", "A.go", "main.go", "0.go", "_u.go", "zz_last.go", "a1.go", "a10.go", "a2.go", "ab_testing.go", "load_tester.go", "x_testdata.go", "test.go", "b_test_util.go"}
@@ -255,6 +271,7 @@ func c16Layout(p c16Pkg, rng *core.Rng, dir string) c16Variant {
 	for _, o := range order {
 		v.Order = append(v.Order, firstLine(o))
 	}
+	v.Files[c16SubPath+"/c16sub.go"] = c16SubSrc
 	return v
 }
 
@@ -264,6 +281,10 @@ func c16AsLibrary(files map[string]string, dir string) map[string]string {
 	root := dir[:strings.LastIndex(dir, "/")]
 	out := map[string]string{}
 	for name, src := range files {
+		if strings.HasPrefix(name, c16SubPath+"/") {
+			out[name] = src
+			continue
+		}
 		src = strings.Replace(src, "package main\n", "package lib\n", 1)
 		src = strings.Replace(src, "func main() {", "func Run() {", 1)
 		out[root+"/lib/"+name[strings.LastIndex(name, "/")+1:]] = src
